@@ -251,6 +251,29 @@ def emitUnpack (l r : Nat) (starred : Bool) (n : Nat) : Prog :=
   ⟨1, i1 ++ i2 ++ (if starred then [] else [⟨.discardEmpty, [a2], 0⟩]),
     e1 ++ (if starred then [a2] else []) ++ e2.reverse⟩
 
+/-- order in which `_assign_array` binds the targets (positions in the pattern: left targets
+    `0 … l-1`, the starred target `l` if any, then the right targets): the `pop` helper assigns the
+    left targets, then the right targets in pattern order, and the starred target last. -/
+def assignOrder (l r : Nat) (starred : Bool) : List Nat :=
+  List.range l ++ (List.range r).map (· + l + (if starred then 1 else 0)) ++ (if starred then [l] else [])
+
+/-- binding the targets one after the other: a later binding of the same name replaces the earlier -/
+def bindTargets (names wires : List Nat) (order : List Nat) : List (Nat × Nat) :=
+  order.foldl (fun env t =>
+    match names[t]?, wires[t]? with
+    | some x, some w => (x, w) :: env.filter (·.1 ≠ x)
+    | _, _ => env) []
+
+def lookupName (env : List (Nat × Nat)) (x : Nat) : Option Nat := (env.find? (·.1 = x)).map (·.2)
+
+/-- the unpacking with NAMED targets (`names` in pattern order; a name may occur several times):
+    same instructions, outputs = the wire every distinct name is finally bound to, in order of first
+    occurrence -/
+def emitUnpackNamed (l r : Nat) (starred : Bool) (n : Nat) (names : List Nat) : Prog :=
+  let p := emitUnpack l r starred n
+  let env := bindTargets names p.outs (assignOrder l r starred)
+  { p with outs := names.eraseDups.map fun x => (lookupName env x).getD 4294967295 }
+
 def emitUnpackShape (s : Nat × Nat × Bool × Nat) : Prog := emitUnpack s.1 s.2.1 s.2.2.1 s.2.2.2
 
 /-- `ArrayDiscardAllUsedCompiler` -/
